@@ -379,6 +379,9 @@ func invalidCases(t int) []invalidCase {
 			{"point-bad-field-number", pbWriteShard(wShard, wDB, wRP, rawPoint("cpu,host=a", "value=1.2.3", 7000)), true},
 			{"point-bad-time", pbWriteShard(wShard, wDB, wRP, append(rawPoint("cpu", "value=1", 7000)[:4+3+4+7], 9, 9, 9)), true},
 			{"point-good-then-garbage", pbWriteShard(wShard, wDB, wRP, good, []byte("zz")), true},
+			{"point-garbage-then-good", pbWriteShard(wShard, wDB, wRP, []byte("zz"), good), true},
+			{"point-good-garbage-good", pbWriteShard(wShard, wDB, wRP, good, []byte("\x00\x01garbage"), rawPoint("cpu,host=b", "value=2", 7001)), true},
+			{"point-empty-then-good", pbWriteShard(wShard, wDB, wRP, []byte{}, good), true},
 			{"point-no-fields", pbWriteShard(wShard, wDB, wRP, rawPoint("cpu,host=a", "", 7000)), false},
 			{"point-lone-quote-string", pbWriteShard(wShard, wDB, wRP, rawPoint("cpu,host=a", `s="`, 7000)), false},
 			{"point-empty-key", pbWriteShard(wShard, wDB, wRP, rawPoint("", "value=1", 7000)), false},
